@@ -174,9 +174,21 @@ def c06_2(ctx):
     fexc = ctx.repo.fn('_dictable:dictable.exc')
     _callable_filter(ctx, finc, False)
     _callable_filter(ctx, fexc, True)
-    # dict arguments are merged into the keyword filters in both
+    # and_ hands every filter value to _row_check AS GIVEN (the case split None / NaN / regex / list of values is _row_check's)
+    fa = ctx.repo.fn('_dictable:and_')
+    ctx.count(1, fa.where())
+    for s_ in body_nodes(fa.node):
+        if isinstance(s_, (ast.Assign, ast.AugAssign)) and 'filters' in [U(t) for t in (s_.targets if isinstance(s_, ast.Assign) else [s_.target])]:
+            ctx.fail(fa, s_, 'and_ converts the filter values (`%s`) before _row_check sees them: a NaN filter is then no longer recognised as NaN (v in [nan] compares by identity/==), so exc and inc disagree on NaN cells' % U(s_)[:90],
+                     witness="t.exc(x=float('nan')) and t.inc(x=float('nan')) both keep a row whose cell is another NaN object")
+    # dict arguments are merged into the keyword filters in both: EXACTLY a dict (pyg's own decorators are dict subclasses and are callables)
     for fn in (finc, fexc):
         ctx.count(1)
+        for t_ in [x for x in ast.walk(fn.node) if isinstance(x, ast.If) and any(isinstance(c, ast.Call) and call_name(c) == 'update' and U(c.func.value) == 'filters' for b in x.body for c in ast.walk(b))]:
+            ok, w = prop_equiv(t_.test, 'type(function) == dict')
+            if not ok:
+                ctx.fail(fn, t_, '%s merges its argument into the filters when `%s`, expected only for an exact dict (type(function) == dict): a decorated predicate (wrapper objects are dict subclasses) is a callable, not a set of conditions' % (fn.qual, U(t_.test)),
+                         witness='t.inc(try_false(lambda a: a > 1))')
         if not [c for c in calls_in(fn.node, 'update') if U(c.func.value) == 'filters']:
             ctx.fail(fn, fn.node, '%s no longer merges dict arguments into the keyword filters' % fn.qual)
         ks = [c for c in calls_in(fn.node, 'kwargs_support')]
